@@ -29,7 +29,7 @@ func init() {
 		Variant{Property: "C08", Name: "unsorted-connectionset-string", File: fConnSet, Func: "ConnectionSet.String", Old: "sort.Strings(resStrings)", New: "sort.Strings(nil)", Rule: "C08-root"},
 		Variant{Property: "C08", Name: "unsorted-conn-properties-string", File: fConnSet, Func: "ConnStrFromConnProperties", Old: "sort.Strings(connStrings)", New: "sort.Strings(nil)", Rule: "C08-root"},
 		Variant{Property: "C08", Name: "unsorted-named-ports", File: fPortSet, Func: "PortSet.String", Old: "sort.Strings(sortedNamedPorts)", New: "sort.Strings(nil)", Rule: "C08-root"},
-		Variant{Property: "C08", Name: "ns-groups-direct-map-range", File: fDotCommon, Func: "AddNsGroups", Old: "for _, ns := range sortMapKeys(nsPeersMap) {", New: "for ns := range nsPeersMap {", Rule: "C08-root"},
+		Variant{Property: "C08", Name: "ns-groups-direct-map-range", File: fDotCommon, Func: "AddNsGroups", Old: "nsKeys := sortMapKeys(nsPeersMap)", New: "nsKeys := make([]string, 0, len(nsPeersMap))\n\tfor ns := range nsPeersMap {\n\t\tnsKeys = append(nsKeys, ns)\n\t}", Rule: "C08-root"},
 		Variant{Property: "C08", Name: "first-policy-wins-in-map-range", File: fCheck, Func: "PolicyEngine.getPoliciesSelectingPod", Old: "\t\tif selects {\n\t\t\tres = append(res, policy)\n\t\t}", New: "\t\tif selects {\n\t\t\tres = append(res, policy)\n\t\t\tbreak\n\t\t}", Rule: "C08-choice", Why: "which policy governs depends on map order"},
 		Variant{Property: "C08", Name: "last-pod-wins-by-name-only", File: fRes, Func: "PolicyEngine.GetSelectedPeers", Old: "\t\t\tres = append(res, peer)\n", New: "\t\t\tres = append(res[:0], peer)\n", Rule: "C08", Why: "only one arbitrary peer kept"},
 		Variant{Property: "C08", Name: "benign-sort-twice", File: fFmtTxt, Func: "formatText.writeConnlistOutput", Old: "sort.Strings(connLines)", New: "sort.Strings(connLines)\n\tsort.Strings(connLines)", Benign: true},
